@@ -207,6 +207,17 @@ class Folder:
                 if not all(isinstance(x, type(sep)) for x in items):
                     raise Unfoldable("join of non-text items")
                 return sep.join(items)
+            if isinstance(f, ast.Name) and f.id in ("bytes", "bytearray") and len(e.args) == 1 and not e.keywords and isinstance(e.args[0], (ast.Tuple, ast.List)):
+                items = [self.fold(x, module, env, self_cls) for x in e.args[0].elts]
+                if all(isinstance(x, int) and not isinstance(x, bool) and 0 <= x <= 255 for x in items):
+                    return bytes(items)
+                raise Unfoldable("bytes of non-octets")
+            if isinstance(f, ast.Name) and f.id in ("chr", "ord", "len", "hex") and len(e.args) == 1 and not e.keywords and f.id not in env:
+                a0 = self.fold(e.args[0], module, env, self_cls)
+                try:
+                    return {"chr": chr, "ord": ord, "len": len, "hex": hex}[f.id](a0)
+                except Exception as ex:
+                    raise Unfoldable(str(ex))
             q = self.m.resolve_name(module, ftxt)
             if q == f"{ASN1}.ASN1Tag":
                 args = {}
@@ -250,6 +261,15 @@ class Folder:
             raise Unfoldable("compare")
         if isinstance(e, ast.Tuple):
             return tuple(self.fold(x, module, env, self_cls) for x in e.elts)
+        if isinstance(e, ast.DictComp) and len(e.generators) == 1 and isinstance(e.generators[0].target, ast.Name) and not e.generators[0].is_async:
+            g = e.generators[0]
+            out = {}
+            for item in self._fold_iterable(g.iter, module, env, self_cls):
+                env2 = dict(env or {})
+                env2[g.target.id] = item
+                if all(self.fold(c, module, env2, self_cls) for c in g.ifs):
+                    out[self._key(self.fold(e.key, module, env2, self_cls))] = self.fold(e.value, module, env2, self_cls)
+            return out
         if isinstance(e, ast.Dict) and all(k is not None for k in e.keys):
             return {self._key(self.fold(k, module, env, self_cls)): self.fold(v, module, env, self_cls) for k, v in zip(e.keys, e.values)}
         if isinstance(e, ast.Subscript):
@@ -279,6 +299,13 @@ class Folder:
             if isinstance(v, (tuple, list)):
                 return list(v)
             raise Unfoldable(f"iteration over {norm(e)[:40]}")
+        if isinstance(e, ast.Call) and isinstance(e.func, ast.Name) and e.func.id == "range" and 1 <= len(e.args) <= 3 and not e.keywords:
+            a = [self.fold(x, module, env, self_cls) for x in e.args]
+            if all(isinstance(x, int) and not isinstance(x, bool) for x in a):
+                r = range(*a)
+                if len(r) <= 4096:
+                    return list(r)
+            raise Unfoldable("range")
         if isinstance(e, (ast.GeneratorExp, ast.ListComp)) and len(e.generators) == 1 and isinstance(e.generators[0].target, ast.Name) and not e.generators[0].is_async:
             g = e.generators[0]
             out = []
